@@ -392,12 +392,12 @@ def judge_c14(spec: dict, rec: dict, fault: Any) -> list:
     if fault is not None and not rec['fault_fired']:
         return v
     victim = fault[1] if fault else None
-    for name, tb in rec['thread_errors']:
-        # a surviving node's thread dying of an unhandled exception
-        kind = name.split('.')[-1]
-        v.append((f'thread-died:{kind}:{tb_signature(tb)}',
-                  f'thread {name} died after the crash of {victim}: '
-                  f'{tb[-600:]}'))
+    # A thread of a surviving node dying of an unhandled exception is not in
+    # itself something the property forbids; only its consequences are
+    # (a client left waiting, a survivor that keeps running).  The tracebacks
+    # are attached to those verdicts as the cause.
+    died = '; '.join(f'{n} died of {tb_signature(tb)}'
+                     for n, tb in rec['thread_errors'])
     hang_check(spec, rec, v)
     for c, op, ev in client_ops(spec, rec):
         if ev is None or ev[2] != 'ok':
@@ -414,7 +414,7 @@ def judge_c14(spec: dict, rec: dict, fault: Any) -> list:
                       f'{victim}; complete output is '
                       f'{trees.expected(tree)!r}'))
     # the rest of the runtime shuts down rather than limping on
-    if rec['quiescent'] and not rec['cap']:
+    if fault is not None and rec['quiescent'] and not rec['cap']:
         for n, (kind, lab) in sorted(rec['alive'].items()):
             if n.startswith('cli'):
                 continue
@@ -429,6 +429,9 @@ def judge_c14(spec: dict, rec: dict, fault: Any) -> list:
     if rec['cap']:
         v.append(('no-quiescence-after-crash',
                   f'the system was still running after {rec["steps"]} steps'))
+    if died:
+        cause = tb_signature(rec['thread_errors'][0][1])
+        v = [(s + ':after:' + cause, w + ' [' + died + ']') for s, w in v]
     return v
 
 
@@ -502,14 +505,32 @@ def judge_c15(spec: dict, rec: dict, fault: Any) -> list:
         if flat and truly_idle:
             lost = rec['discarded_by_cancel'] if 'discarded_by_cancel' in rec \
                 else None
+            cancelled = {tuple(x[1]) for x in rec['log']
+                         if x[0] == 'cancel-handled'}
+            reported = {(tuple(x[1]), x[2]) for x in rec['log']
+                        if x[0] == 'completed' and x[3]}
             for (eid, ntasks, nidle, tw, _) in srv['employees']:
                 if ntasks != 0:
-                    if spec.get('has_cancel'):
+                    # ground truth held by the simulated worker: tasks that
+                    # were delivered to it and never reported a completion
+                    delivered = [a for a, ws in rec['deliveries'].items()
+                                 if f'w{eid}' in ws]
+                    lost = [a for a in delivered if (a, eid) not in reported]
+                    by_cancel = bool(cancelled) and spec.get('has_cancel')
+                    if by_cancel and ntasks == len(lost):
                         v.append((
-                            'num-tasks-drift-after-cancel',
+                            'num-tasks-drift-equals-tasks-discarded-by-cancel',
                             f'idle system: server believes worker {eid} has '
-                            f'{ntasks} outstanding tasks (cancelled work '
-                            'never reports back)'))
+                            f'{ntasks} outstanding tasks = the {len(lost)} '
+                            f'tasks {lost} it discarded because of '
+                            f'cancellations {sorted(cancelled)} (cancelled '
+                            'work never reports back)'))
+                    elif spec.get('has_cancel'):
+                        v.append((
+                            'num-tasks-drift-unexplained',
+                            f'idle system: server believes worker {eid} has '
+                            f'{ntasks} outstanding tasks but it discarded '
+                            f'{len(lost)}: {lost}'))
                     else:
                         v.append((
                             'num-tasks-nonzero-at-idle',
